@@ -280,11 +280,80 @@ package cache
 //@   modifies $clock, hc.status, hc.chanList, hc.response, hc.createdAt, hc.expiredAt, cells(chan struct{})
 //@   nopanic
 
+// ---- sharded LRU (dispatcher.go, cache.go, memhash.go) ---------------------------------
+
+//@ spec func memhash(b Bytes) int
+//@ spec func shardIndex(d *dispatcher, key []byte) int := memhash(contents(key)) % d.zoneSize
+//@ spec func shardOf(d *dispatcher, key []byte) *httpLRUCache := d.list[shardIndex(d, key)]
+//@ spec func keyOf(key []byte) any := box(b2s(contents(key)))
+// every value held by a shard is a non-nil cache entry
+//@ pred lruInv(l *httpLRUCache) := forall k any :: l.cache.dom[k] ==> typeis(l.cache.view[k], "*httpCache") && unbox(l.cache.view[k], "*httpCache") != nil
+//@ lockinv httpLRUCache.mu(l) [entries]: lruInv(l)
+
+//@ func byteSliceToString(b []byte) (s string)
+//@   trusted
+//@   nopanic
+//@   ensures [alias] s == b2s(contents(b))
+
+//@ func MemHash(data []byte) (h uint64)
+//@   trusted
+//@   nopanic
+//@   ensures [det] h == memhash(contents(data)) && h >= 0
+
+//@ func (d *dispatcher) getLRU(key []byte) (l *httpLRUCache)
+//@   requires [recv] d != nil
+//@   nopanic
+//@   ensures [shard] l == shardOf(d, key) && l != nil && 0 <= shardIndex(d, key) && shardIndex(d, key) < len(d.list)
+
+// the private shard operations are only called with the shard lock held
+//@ func (lru *httpLRUCache) getCache(key []byte) (hc *httpCache, ok bool)
+//@   requires [recv] lru != nil
+//@   requires [locked] held(lru.mu)
+//@   requires [inv] lruInv(lru)
+//@   nopanic
+//@   ensures [found] ok ==> hc != nil && lru.cache.dom[keyOf(key)] && lru.cache.view[keyOf(key)] == box(hc)
+//@   ensures [hit]   (lru.cache.dom[keyOf(key)] && typeis(lru.cache.view[keyOf(key)], "*httpCache")) ==> ok
+//@   ensures [miss]  !ok ==> hc == nil
+
+//@ func (lru *httpLRUCache) addCache(key []byte, hc *httpCache)
+//@   requires [recv] lru != nil
+//@   requires [locked] held(lru.mu)
+//@   nopanic
+//@   modifies lru.cache.view, lru.cache.dom
+//@   ensures [mapped] lru.cache.dom[keyOf(key)] && lru.cache.view[keyOf(key)] == box(hc)
+//@   ensures [others] forall k any :: k != keyOf(key) && lru.cache.dom[k] ==> old(lru.cache.dom[k]) && lru.cache.view[k] == old(lru.cache.view[k])
+
+//@ func (lru *httpLRUCache) removeCache(key []byte)
+//@   requires [recv] lru != nil
+//@   requires [locked] held(lru.mu)
+//@   nopanic
+//@   modifies lru.cache.view, lru.cache.dom
+//@   ensures [gone] !lru.cache.dom[keyOf(key)]
+//@   ensures [others] forall k any :: k != keyOf(key) ==> lru.cache.dom[k] == old(lru.cache.dom[k]) && lru.cache.view[k] == old(lru.cache.view[k])
+
 //@ func (d *dispatcher) GetHTTPCache(key []byte) (hc *httpCache)
 //@   requires [recv] d != nil
 //@   requires [nolocks] nolocks()
+//@   modifies shardOf(d, key).cache.view, shardOf(d, key).cache.dom
 //@   nopanic
 //@   ensures [nonnil] hc != nil
+//@   ensures [mapped] shardOf(d, key).cache.dom[keyOf(key)] && shardOf(d, key).cache.view[keyOf(key)] == box(hc)
+//@   ensures [stable] (old(shardOf(d, key).cache.dom[keyOf(key)]) && typeis(old(shardOf(d, key).cache.view[keyOf(key)]), "*httpCache"))
+//@                      ==> box(hc) == old(shardOf(d, key).cache.view[keyOf(key)])
+//@   ensures [new]    !old(shardOf(d, key).cache.dom[keyOf(key)]) ==> fresh(hc) && hc.status == StatusUnknown && hc.expiredAt == 0
+//@                      && hc.store == d.store && (d.store != nil ==> hc.key == key)
+//@   ensures [others] forall k any :: k != keyOf(key) && shardOf(d, key).cache.dom[k]
+//@                      ==> old(shardOf(d, key).cache.dom[k]) && shardOf(d, key).cache.view[k] == old(shardOf(d, key).cache.view[k])
+//@   ensures [locks]  nolocks()
+
+//@ func (d *dispatcher) RemoveHTTPCache(key []byte)
+//@   requires [recv] d != nil
+//@   requires [nolocks] nolocks()
+//@   modifies shardOf(d, key).cache.view, shardOf(d, key).cache.dom
+//@   nopanic
+//@   ensures [gone]   !shardOf(d, key).cache.dom[keyOf(key)]
+//@   ensures [others] forall k any :: k != keyOf(key) ==> shardOf(d, key).cache.dom[k] == old(shardOf(d, key).cache.dom[k])
+//@                      && shardOf(d, key).cache.view[k] == old(shardOf(d, key).cache.view[k])
 //@   ensures [locks]  nolocks()
 
 //@ func (d *dispatcher) GetHitForPass() (ttl int)
